@@ -113,11 +113,16 @@ class C14(Property):
                             "shift": rng.pick([[0.0, 0.0, 0.0], [rng.pick([-1.0, 1.0, 2.0]) for _ in range(3)]]),
                             "ang": rng.pick(CUBE), "object": rng.randrange(1, 9), "cls": rng.randrange(1, 5)} for _ in range(k)]
             st["color"] = rng.pick(["object_id", "class"])
-            st["via"] = rng.pick(["array", "array", "em", "mrc"])
+            st["via"] = rng.pick(["array", "array", "em", "mrc", "list", "list"])
+            if rng.chance(0.5):   # repeated orientations among the particles
+                few = [rng.pick(CUBE) for _ in range(2)]
+                for q in st["parts"]:
+                    q["ang"] = rng.pick(few)
         elif op == "extract":
             st["vol"] = [rng.randrange(6, 25) for _ in range(3)]
             st["box"] = [rng.pick([2, 4, 6, 8, 10]) for _ in range(3)]
             st["coord"] = [rng.randrange(-8, st["vol"][i] + 8) for i in range(3)]
+            st["dtype"] = rng.pick(["float64", "float32", "int16", "int8", "uint8"])
         elif op == "croppad":
             st["vol"] = [rng.randrange(6, 21) for _ in range(3)]
             st["crop"] = [rng.pick([2, 4, 6]) for _ in range(3)]
@@ -264,15 +269,26 @@ class C14(Property):
         n = step["n"]
         c = n // 2
         g = np.random.Generator(np.random.PCG64(step["seed"]))
-        tmpl = np.zeros((n, n, n))
-        # an asymmetric blob of voxels at least one voxel away from every face
-        for _ in range(12):
-            tmpl[tuple(g.integers(1, n - 1, size=3))] = 1.0
-        tmpl[c + 1, c, c] = 1.0
-        tmpl[c + 2, c, c] = 1.0
-        tmpl[c, c + 1, c] = 1.0
+        parts = step["parts"]
+
+        def make_template():
+            t = np.zeros((n, n, n))
+            # an asymmetric blob of voxels at least one voxel away from every face
+            for _ in range(12):
+                t[tuple(g.integers(1, n - 1, size=3))] = 1.0
+            t[c + 1, c, c] = 1.0
+            t[c + 2, c, c] = 1.0
+            t[c, c + 1, c] = 1.0
+            return t
+
+        tmpl = make_template()
+        templates = [tmpl] * len(parts)
         arg, targets = tmpl, []
-        if step["via"] != "array":
+        if step["via"] == "list":
+            templates = [make_template() for _ in parts]   # one template per particle
+            arg = list(templates)
+            world.probes["template_list"] += 1
+        elif step["via"] != "array":
             arg, p = self.put_file(world, step, tmpl)
             targets = [p]
         parts = step["parts"]
@@ -302,8 +318,8 @@ class C14(Property):
         # model: stamp the rotated template at position-1 (1-based -> 0-based), later particles on top
         world.oracle()
         want = np.zeros(shape)
-        offs = np.argwhere(tmpl > 0.5) - c
-        for p in parts:
+        for p, tp in zip(parts, templates):
+            offs = np.argwhere(tp > 0.5) - c
             R = np.rint(pose.R_particle(*p["ang"])).astype(int)
             colour = float(p["object"] if step["color"] == "object_id" else p["cls"])
             centre = np.array(p["pos"]) - 1
@@ -342,6 +358,8 @@ class C14(Property):
 
     def op_extract(self, world, step):
         vol = self.int_volume(step["seed"], tuple(step["vol"]))
+        if step.get("dtype", "float64") != "float64":
+            vol = (vol % 100).astype(step["dtype"])   # e.g. an integer-typed tomogram or mask
         coord = np.array(step["coord"])
         box = tuple(step["box"])
 
@@ -355,10 +373,11 @@ class C14(Property):
                     coord.tolist(), box, vol.shape, o.exc, o.tb))
         self.fill_independent(world, step, o1.value, o2.value, "extract_subvolume")
         world.oracle()
-        want, kind = self.window_model(vol, coord, box)
+        want, kind = self.window_model(vol.astype(np.float64), coord, box)
         world.probes["window_" + kind] += 1
         got = o1.value
-        if got.shape != want.shape or not np.allclose(got, want, rtol=0, atol=1e-9):
+        # (the mean of a float32 volume is itself computed in single precision)
+        if got.shape != want.shape or not np.allclose(got, want, rtol=0, atol=1e-9 if vol.dtype != np.float32 else 1e-3):
             raise Violation("window", "extract:%s" % kind, "extract_subvolume(centre %r, box %r) of a %r volume is not the requested window with mean fill (%s window)" % (
                 coord.tolist(), box, vol.shape, kind))
         world.stats["acks"] += 1
@@ -459,7 +478,7 @@ class C14(Property):
                     yield dict(step, parts=step["parts"][:i] + [dict(p, ang=[0.0, 0.0, 0.0])] + step["parts"][i + 1:])
                 if p["shift"] != [0.0, 0.0, 0.0]:
                     yield dict(step, parts=step["parts"][:i] + [dict(p, shift=[0.0, 0.0, 0.0])] + step["parts"][i + 1:])
-        if step.get("via") in ("em", "mrc"):
+        if step.get("via") in ("em", "mrc", "list"):
             yield dict(step, via="array")
         if step.get("fold") and step["fold"] > 2:
             yield dict(step, fold=2)
